@@ -41,10 +41,10 @@ ROOTS = ['ComplexModel', 'Array', 'Iterable', 'XmlAttribute']
 # attributes the model tracks (the "public constraints" of a type)
 MODEL_KEYS = ['min_occurs', 'max_occurs', 'nillable', 'default', 'values', 'sub_name', 'exc', 'exc_table', 'exc_db',
               'validate_on_assignment', 'read_only', 'min_len', 'max_len', 'pattern', 'ge', 'gt', 'le', 'lt',
-              'total_digits', 'fraction_digits', 'max_str_len', 'min_bound', 'max_bound', 'encoding', 'foo']
+              'total_digits', 'fraction_digits', 'max_str_len', 'min_bound', 'max_bound', 'encoding', 'foo',
+              'primary_key', 'index', 'unique']
 # attributes that every customisation (re)creates for its own bookkeeping; never part of the observation
-BOOKKEEPING = {'translations', 'sqla_column_args', 'parent_variant', 'child_attrs', 'child_attrs_all',
-               'child_attrs_noexc', 'sqla_mapper_args', 'methods'}
+BOOKKEEPING = {'parent_variant', 'child_attrs', 'child_attrs_all', 'child_attrs_noexc', 'sqla_mapper_args', 'methods'}
 
 
 def base_class(name):
@@ -171,6 +171,8 @@ def snap(cls, depth=0):
         return 'missing'            # a cyclic type graph (never generated; the model gives up at the same depth)
     k = kind_of(cls)
     o = {'kind': k, 'tn': tname(cls), 'ns': cls.__namespace__, 'attrs': attrs_of(cls), 'v': verdicts(cls)}
+    sca = cls.Attributes.sqla_column_args
+    o['col'] = None if sca is None else [[a, aval(v)] for a, v in sca[-1].items()]
     orig = cls.__dict__.get('__orig__', None) if k == 'xmlattr' else cls.__orig__
     o['orig'] = None if orig is None else tname(orig)
     if k == 'xmlattr':
@@ -445,6 +447,9 @@ COMMON_KW = {
     'nullable': [True, False], 'sub_name': ['alt', 'other'], 'exc': [True, False],
     'exc_table': [True, False], 'voa': [True, False], 'validate_on_assignment': [True], 'read_only': [True],
     'foo': [1, 'bar'], '_private': [1], 'doc': ['some text'],
+    # keywords the loop handles by writing into the sqla_column_args dict / plain database attributes
+    'pk': [True], 'primary_key': [True, False], 'autoincrement': [True], 'onupdate': ['now'], 'server_default': ['x', '0'],
+    'index': [True, 'btree'], 'unique': [True],
 }
 NUMBER_KW = {'ge': [-5, 0, 3, 100, 300], 'gt': [-5, 0, 3, 100, 255, 300], 'le': [-5, 0, 3, 100, 300, 2 ** 31],
              'lt': [-5, 0, 3, 100, 300], 'total_digits': [3, 10], 'fraction_digits': [0, 2, 12],
@@ -586,6 +591,13 @@ def measure_facts():
     # does customising a number keep its max_str_len?
     f['mslRule'] = 'followsRequested' if (P.Integer32(ge=0).Attributes.max_str_len == P.Integer32.Attributes.max_str_len
                                           and P.Decimal(total_digits=5).Attributes.max_str_len == 7) else 'resetsFromParent'
+    # is the column-keyword dict of sqla_column_args a copy of the source's, or the same object?
+    code = P.Unicode(max_len=32)
+    code(pk=True)
+    f['colCopy'] = 'shallow' if code.Attributes.sqla_column_args[-1] else 'deep'
+    for n in BASES + ROOTS:
+        if base_class(n).Attributes.sqla_column_args is not None:
+            raise core.Infra('base class %s has sqla_column_args (the model starts from None)' % n)
     # declared order of a class body
     ns = {}
     names = ['zeta', 'alpha', 'mid', 'beta', 'omega', 'b2', 'a1', 'k9']
@@ -609,7 +621,8 @@ def measure_facts():
     return f
 
 
-GOOD = {'mandRule': 'copies', 'varRule': 'ownPerClass', 'mslRule': 'followsRequested', 'dictOrdered': True}
+GOOD = {'mandRule': 'copies', 'varRule': 'ownPerClass', 'mslRule': 'followsRequested', 'colCopy': 'deep',
+        'dictOrdered': True}
 
 
 def lean_str(s):
@@ -665,6 +678,7 @@ def facts15 : Facts15 where
   mandRule := .%s
   varRule := .%s
   mslRule := .%s
+  colCopy := .%s
   dictOrdered := %s
   mandPrefix := %s
   mandSuffix := %s
@@ -682,7 +696,7 @@ def facts15 : Facts15 where
   xmlattrRoot := %d
 
 end SpyneModel.Generated
-''' % (f['mandRule'], f['varRule'], f['mslRule'], b(f['dictOrdered']), lean_str(f['mandPrefix']), lean_str(f['mandSuffix']),
+''' % (f['mandRule'], f['varRule'], f['mslRule'], f['colCopy'], b(f['dictOrdered']), lean_str(f['mandPrefix']), lean_str(f['mandSuffix']),
        lean_str(f['arrPrefix']), lean_str(f['arrSuffix']), ', '.join(lean_str(s) for s in f['prefNs']),
        ', '.join(lean_str(s) for s in MODEL_KEYS), lean_kw(f['numDefaults']), lean_kw(f['uniDefaults']),
        ',\n'.join(lines), names.index('ComplexModel'), names.index('Array'), names.index('Iterable'),
@@ -735,9 +749,24 @@ def norm_requested(kw):
             out['exc_db'] = v
         elif k == 'max_occurs' and v in ('unbounded', 'inf', INF):
             out['max_occurs'] = INF
+        elif k in ('pk', 'primary_key'):
+            out['primary_key'] = v
+        elif k in ('autoincrement', 'onupdate', 'server_default'):
+            pass                      # go into the column keywords, checked by col_requested
         else:
             out[k] = v
     return out, doc
+
+
+def col_requested(kw):
+    """what a customisation with these keywords adds to the column keywords"""
+    out = {}
+    for k, v in kw.items():
+        if k in ('pk', 'primary_key'):
+            out['primary_key'] = v
+        elif k in ('autoincrement', 'onupdate', 'server_default'):
+            out[k] = v
+    return out
 
 
 def check_exact(ctx, new, src, kw, opk, report):
@@ -756,7 +785,15 @@ def check_exact(ctx, new, src, kw, opk, report):
         report('exact:%s:doc' % opk, 'requested doc not set')
     if 'nillable' in req and new.Attributes.nullable != req['nillable']:
         report('exact:%s:requested:nullable' % opk, 'nullable does not follow nillable')
-    derived = set()
+    # column keywords: the source's, plus the requested ones, in a dict of the derived class's own
+    want_col = dict((src.Attributes.sqla_column_args or ((), {}))[-1])
+    for one in (kw if isinstance(kw, list) else [kw]):
+        want_col.update(col_requested(one))
+    got_sca = new.Attributes.sqla_column_args
+    if got_sca is None or cval(dict(got_sca[-1])) != cval(want_col):
+        report('exact:sqla_column_args', 'column keywords of the derived class are %r, expected %r' % (
+            None if got_sca is None else got_sca[-1], want_col))
+    derived = {'sqla_column_args', 'translations'}
     if 'total_digits' in req or 'max_str_len' in req:
         derived.add('max_str_len')          # documented to follow total_digits (+ separator and sign)
         if req.get('max_str_len') is None and req.get('total_digits') is not None and \
@@ -895,6 +932,22 @@ class Oracle:
                 self.report('frame:%s:%s:%s' % (k, kind_of(c), '+'.join(changed)),
                             '%s (%s) changed a %s it must leave alone (%s: %s)' % (k, res, kind_of(c), c.__name__, ', '.join(changed)),
                             {'changed': json.loads(json.dumps(detail, default=str))})
+        # ---- containers that spyne writes into must not be one object in two Attributes classes
+        owners = {}
+        for i, c in impl.registry.items():
+            A = c.Attributes
+            own = vars(A)
+            cands = []
+            sca = own.get('sqla_column_args')
+            if isinstance(sca, tuple) and sca and isinstance(sca[-1], dict):
+                cands.append(('sqla_column_args', sca[-1]))
+            if isinstance(own.get('_delayed_child_attrs'), dict):
+                cands.append(('_delayed_child_attrs', own['_delayed_child_attrs']))
+            for name, obj in cands:
+                first = owners.setdefault((name, id(obj)), A)
+                if first is not A:
+                    self.report('alias:' + name, 'the %s dict of two different classes is one object (%s derived by %s): '
+                                'a later customisation of either writes into both' % (name, c.__name__, k))
         # ---- flat order = parents first, everywhere
         for i, c in impl.registry.items():
             if is_complex(c) and 'flat' in cur[i]:
@@ -1291,6 +1344,11 @@ FACT_WITNESS = {
     'mandRule': [{'k': 'array', 'src': I_, 'kw': []}, {'k': 'mand', 'src': 8}],
     'varRule': CORPUS[1][1][:5],
     'mslRule': [{'k': 'cust', 'src': I32_, 'kw': _kw(ge=0)}, {'k': 'cust', 'src': D_, 'kw': _kw(total_digits=5)}],
+    'colCopy': [{'k': 'cust', 'src': U_, 'kw': _kw(max_len=32)}, {'k': 'cust', 'src': 8, 'kw': _kw(pk=True)},
+                {'k': 'cust', 'src': 8, 'kw': _kw(min_len=2)},
+                {'k': 'sub', 'name': 'Item', 'base': None, 'ns': 'ns.a', 'fields': [['id', 9], ['label', 8], ['alias', 10]]},
+                {'k': 'cust', 'src': 10, 'kw': _kw(autoincrement=True, index=True)},
+                {'k': 'cust', 'src': 11, 'kw': _kw(pk=True)}, {'k': 'cust', 'src': 13, 'kw': _kw(server_default='x', unique=True)}],
     'dictOrdered': [{'k': 'sub', 'name': 'W', 'base': None, 'ns': None, 'fields': [['zeta', I_], ['alpha', U_], ['mid', I_]]}],
 }
 
